@@ -14,7 +14,7 @@ from vf import ref_sgml
 from vf import ref_types as R
 from vf import universe as U
 from vf.checks.c01 import FORMS, client, empty_aggregates
-from vf.core import HarnessError, Tally
+from vf.core import vacuous, HarnessError, Tally
 
 LEVEL = "exploration"
 D = decimal.Decimal
@@ -291,22 +291,22 @@ def run(ctx):
     rot = ctx.seed % len(names)
     tally = ctx.pmap(work, names[rot:] + names[:rot])
     if tally.counts.get("elements", 0) < 1200:
-        raise HarnessError(f"vacuous: {tally.counts}")
+        vacuous(tally, f"vacuous: {tally.counts}")
     if not tally.fails:
         for o in ("written-Decimal", "written-String", "written-DateTime", "wire-ok-v1-unclosed", "wire-ok-v2-xml", "refused-list-member"):
             if o not in tally.outcomes:
-                raise HarnessError(f"vacuous: {o} never observed")
+                vacuous(tally, f"vacuous: {o} never observed")
     tally.sample({"cls": "STMTTRN", "child": "trnamt", "value": "Decimal('1E+2')", "rule": "plain decimal notation or refusal"})
     tally.sample({"cls": "SONRQ", "child": "userpass", "value": "A&B<c>\"'", "forms": [f[0] for f in FORMS]})
     cov = {
-        "evaluations": tally.counts["evaluations"],
-        "distinct_nontrivial": tally.counts["values"],
+        "evaluations": tally.counts.get("evaluations", 0),
+        "distinct_nontrivial": tally.counts.get("values", 0),
         "rule": "every class x every data element x trouble values of its type (Decimal: zeros, +/- exponents, normalize(), NaN, sNaN, +-Infinity, 29 and 30 significant "
         "digits; Integer: 0, -1, +-limit, True; String: markup, non-ASCII, CDATA delimiters, entity text, at the limit; DateTime/Time: 5 zones with sub-ms parts and carries; "
         "Bool; every enumeration token) set by keyword on the smallest instance; leaf texts of to_etree() checked against the lexical rule, then all 6 wire forms read by the "
         "strict reference reader (well-formed, entities only, same data); ElementList classes: invalid members added through append/insert/extend/+= must be refused when written; "
         "distinct_nontrivial = (class, element, value) triples",
-        "elements": tally.counts["elements"],
+        "elements": tally.counts.get("elements", 0),
         "refused": tally.counts.get("refused", 0),
         "exhaustive": True,
     }
